@@ -1060,7 +1060,11 @@ class Engine:
                     and isinstance(self.contract.locals[tgt.id], TDict):
                 dt = self.contract.locals[tgt.id]
                 ks = key_sort_of(dt.k)
-                val = SDict(dt.k, dt.v, z3.K(ks, False), [z3.K(ks, z3.FreshConst(srt, "dv")) for srt in dt.v.sorts()])
+                comps_ = [z3.K(ks, z3.FreshConst(srt, "dv")) for srt in dt.v.sorts()]
+                if isinstance(dt, TODict):
+                    val = SODict(dt.k, dt.v, z3.K(ks, False), comps_, SList(dt.k, z3.IntVal(0), [z3.K(z3.IntSort(), z3.FreshConst(ks, "ok"))]), z3.K(ks, z3.IntVal(0)))
+                else:
+                    val = SDict(dt.k, dt.v, z3.K(ks, False), comps_)
             self.frame.env[tgt.id] = val
         elif isinstance(tgt, (ast.Tuple, ast.List)):
             items = self.unpack(val, len(tgt.elts), tgt)
